@@ -306,11 +306,9 @@ func (c01) Run(ctx *RunCtx) {
 			case 8:
 				method, params = "textDocument/inlineCompletion", td
 				if doc.Journal {
-					// a header line that names the stamp payee: ask on a fresh line is not
-					// possible without editing; ask at end of the stamp header line
-					base := 1 + strings.Count(doc.Extra, "\n")
+					// the empty line after the header being typed (last header of StampText)
 					lens := doc.Buf.LineLens()
-					params = J{"textDocument": docID(doc.URI), "position": pos(base, lens[base])}
+					params = J{"textDocument": docID(doc.URI), "position": pos(len(lens)-2, 0)}
 				}
 			case 9:
 				method, params = "workspace/symbol", J{"query": "v"}
